@@ -31,7 +31,7 @@
   The proofs are in `Proofs/Rewrite.lean`.
 -/
 import Ctrmml.Proofs.Rewrite
-import Ctrmml.Proofs.OptSub
+import Ctrmml.Proofs.OptQSort
 namespace Ctrmml.C01
 open Ctrmml Ctrmml.Tree Ctrmml.Expand Ctrmml.Rewrite Tables
 
@@ -919,10 +919,10 @@ further replacement made by `find_subroutines` an occurrence of the same phrase 
 Hypotheses: the subroutine branch is taken; the song is well formed; `subId` is fresh (no track
 with that id) and not called anywhere (`hnoj`; follows from freshness for a song all of whose
 tracks validate, `noJump_of_valid`); the phrase lies within the track and is balanced (`hbal`;
-`findMatch_subOK` shows that the match `find_match` returns has this property);
-`hq : QSortPerm` — the library's `Array.qsort`, through which the model inserts the new track into
-the id-ordered track list, returns a permutation of its input. -/
-theorem applyMatch_sub_is_step (hq : QSortPerm) {song : Song} {m : SAMap} {bm : Match} {subId : Int}
+`findMatch_subOK` shows that the match `find_match` returns has this property).  (The model
+inserts the new track into the id-ordered track list with the library's `Array.qsort`;
+`OptSteps.qsortPerm_of_core` proves that it returns a permutation.) -/
+theorem applyMatch_sub_is_step {song : Song} {m : SAMap} {bm : Match} {subId : Int}
     {src : List Event} (hwf : SongWF song)
     (hbr : bm.loopScore < bm.subScore) (hsrc : song.track? bm.trackId = some src)
     (hfresh : song.track? (trackIdOfParam subId) = none)
@@ -933,7 +933,7 @@ theorem applyMatch_sub_is_step (hq : QSortPerm) {song : Song} {m : SAMap} {bm : 
     StepN song s3 ∧ subId' = wrap16 (subId + 1) ∧
       SubInv song ((src.drop bm.position).take bm.subLength) (jumpEvent subId) (trackIdOfParam subId) s3 := by
   obtain ⟨w1, w2, _⟩ := hwf.track hsrc
-  obtain ⟨hinv, hid⟩ := applyMatch_sub_inv hq hwf.nodup hbr hsrc w2 hfresh
+  obtain ⟨hinv, hid⟩ := applyMatch_sub_inv qsortPerm_of_core hwf.nodup hbr hsrc w2 hfresh
     (fun id t ht => (hwf.track ht).2.1) hlen h
     (fun x hx => hnoj x (List.mem_of_mem_drop (List.mem_of_mem_take hx)))
   exact ⟨stepN_of_subInv hinv hfresh (noEnd_take (noEnd_drop w1 _) _) hbal, hid, hinv⟩
